@@ -114,13 +114,15 @@ def native_contribution(data, kind):
         return cls(calc, (data["e_i"], data["e_j"]))
 
 
-def battery(kind, what, seeds=range(2), rtol=1e-7):
+def battery(kind, what, seeds=range(2), rtol=1e-7, cases=None, nt=3, nv=2):
     """native replay: the real code vs the independent oracle on a small battery of synthetic spectra.
     what in {zero_point_contribution, thermal_contribution, value_isothermal, isothermal_to_adiabatic}.
     Returns (reproduced, record)"""
     for seed in seeds:
-        for (nq, na, layout) in ((1, 1, "zero_first"), (2, 2, "no_zero"), (2, 1, "zero_inside"), (1, 2, "descending")):
-            d = random_data(seed, nq=nq, na=na, equal_e=(kind == "longitudinal"), t_layout=layout)
+        for (nq, na, layout) in (cases or ((1, 1, "zero_first"), (2, 2, "no_zero"), (2, 1, "zero_inside"), (1, 2, "descending"))):
+            d = random_data(seed, nt=nt, nv=nv, nq=nq, na=na, equal_e=(kind == "longitudinal"), t_layout=layout)
+            if nq > 8:
+                d["omega"][:, 1:, :] = numpy.abs(d["omega"][:, 1:, :]) + 30.0        # a Gamma-like zero only at the first q-point
             try:
                 obj = native_contribution(d, kind)
                 got = numpy.asarray(getattr(obj, what), dtype=float)
@@ -137,7 +139,7 @@ def battery(kind, what, seeds=range(2), rtol=1e-7):
             else:
                 exp = spec_gap(d)
             if got.shape != exp.shape or not numpy.allclose(got, exp, rtol=rtol, atol=1e-14, equal_nan=False):
-                return True, {"seed": seed, "nq": nq, "na": na, "t_layout": layout, "input": {k: (v.tolist() if hasattr(v, "tolist") else v) for k, v in d.items()},
+                return True, {"seed": seed, "nq": nq, "na": na, "t_layout": layout, "input": ({k: (v.tolist() if hasattr(v, "tolist") else v) for k, v in d.items()} if nq <= 8 else "random_data(seed=%d, nt=%d, nv=%d, nq=%d, na=%d)" % (seed, nt, nv, nq, na)),
                               "observed": got.tolist(), "expected": exp.tolist()}
     return False, {"note": "real code agrees with the oracle on the replay battery"}
 
